@@ -97,6 +97,23 @@ static int dump() {
         }
         printf("sane %s %d %d %d\n", names[f], lo, hi, contiguous ? 1 : 0);
     }
+    // the day-of-month limit of every month, probed in a leap year (tm_year 100 = 2000) and in a common year (tm_year 101)
+    for (int leap = 1; leap >= 0; --leap) {
+        for (int mon = 0; mon < 12; ++mon) {
+            int hi = 0;
+            bool contiguous = true;
+            for (int d = 1; d <= 40; ++d) {
+                struct tm tm;
+                memset(&tm, 0, sizeof(tm));
+                tm.tm_year = leap ? 100 : 101; tm.tm_mon = mon; tm.tm_mday = d;
+                if (tmSaneValues(&tm)) {
+                    if (hi != d - 1) contiguous = false;
+                    hi = d;
+                }
+            }
+            printf("month_days %d %d %d %d\n", leap, mon, hi, contiguous ? 1 : 0);
+        }
+    }
     return 0;
 }
 
